@@ -479,4 +479,801 @@ theorem trailingZeros_char : ∀ (W v : Nat),
       · intro h
         rw [Nat.add_comm, Nat.testBit_succ]; exact h3 (by omega)
 
+/-! ### E. leading / trailing ones = leading / trailing zeros of the complement -/
+
+theorem not_ne_zero_iff {w d : Nat} (hd : d < B w) : (Prim.not w d != 0) = (d != B w - 1) := by
+  unfold Prim.not
+  by_cases h : d = B w - 1
+  · have : B w - 1 - d = 0 := by omega
+    simp [h]
+  · have : B w - 1 - d ≠ 0 := by omega
+    have e1 : (B w - 1 - d != 0) = true := by simpa using this
+    have e2 : (d != B w - 1) = true := by simpa using h
+    rw [e1, e2]
+
+theorem loLoop_eq {w : Nat} : ∀ (r : List Nat), Digits w r → ∀ z,
+    UI.loLoop w r z = UI.lzLoop w (r.map (Prim.not w)) z
+  | [], _, z => rfl
+  | d :: rs, hr, z => by
+    rw [Digits_cons] at hr
+    simp only [UI.loLoop, UI.lzLoop, List.map_cons, not_ne_zero_iff hr.1, Prim.leadingOnes]
+    rw [loLoop_eq rs hr.2]
+
+theorem toLoop_eq {w : Nat} : ∀ (r : List Nat), Digits w r → ∀ z,
+    UI.toLoop w r z = UI.tzLoop w (r.map (Prim.not w)) z
+  | [], _, z => rfl
+  | d :: rs, hr, z => by
+    rw [Digits_cons] at hr
+    simp only [UI.toLoop, UI.tzLoop, List.map_cons, not_ne_zero_iff hr.1, Prim.trailingOnes]
+    rw [toLoop_eq rs hr.2]
+
+/-- C06 (model level): `leading_ones(a) = leading_zeros(!a)` -/
+theorem leadingOnes_eq_not {w n : Nat} {x : List Nat} (hx : WF w n x) :
+    UI.leadingOnes w x = UI.leadingZeros w (UI.not w x) := by
+  unfold UI.leadingOnes UI.leadingZeros UI.not bnot
+  rw [loLoop_eq _ (Digits_reverse hx.2), List.map_reverse]
+
+theorem trailingOnes_eq_not {w n : Nat} {x : List Nat} (hx : WF w n x) :
+    UI.trailingOnes w x = UI.trailingZeros w (UI.not w x) := by
+  unfold UI.trailingOnes UI.trailingZeros UI.not bnot
+  rw [toLoop_eq _ hx.2]
+
+theorem leadingOnes_spec {w n : Nat} {x : List Nat} (hx : WF w n x) :
+    UI.leadingOnes w x = Spec.leadingOnes (w * n) (U w x) := by
+  rw [leadingOnes_eq_not hx]
+  obtain ⟨h1, h2⟩ := bnot_spec n x hx
+  unfold UI.not Spec.leadingOnes Spec.leadingZeros Spec.compl
+  rw [leadingZeros_spec h1, h2]; rfl
+
+theorem trailingOnes_spec {w n : Nat} {x : List Nat} (hx : WF w n x) :
+    UI.trailingOnes w x = Spec.trailingOnes (w * n) (U w x) := by
+  rw [trailingOnes_eq_not hx]
+  obtain ⟨h1, h2⟩ := bnot_spec n x hx
+  unfold UI.not Spec.trailingOnes Spec.compl
+  rw [trailingZeros_spec h1, h2]; rfl
+
+/-! ### F. bit, set_bit, power_of_two -/
+
+theorem tzLoop_two_pow : ∀ (f s : Nat), s < f → Prim.tzLoop f (2 ^ s) = s
+  | 0, s, h => by omega
+  | f + 1, 0, _ => by simp [Prim.tzLoop]
+  | f + 1, s + 1, h => by
+    unfold Prim.tzLoop
+    have h1 : 2 ^ (s + 1) % 2 = 0 := by rw [Nat.pow_succ]; omega
+    have h2 : 2 ^ (s + 1) / 2 = 2 ^ s := by rw [Nat.pow_succ]; omega
+    rw [h1, h2, tzLoop_two_pow f s (by omega)]; simp; omega
+
+/-- for a power-of-two digit width `w = 2^s` (`s < 32`, i.e. it fits the `u32` constant `BITS`),
+    `BIT_SHIFT = s` -/
+theorem bitShift_pow2 {s : Nat} (hs : s < 32) : bitShift (2 ^ s) = s := tzLoop_two_pow 32 s hs
+
+theorem digitIndex_eq {s : Nat} (hs : s < 32) (i : Nat) : digitIndex (2 ^ s) i = i / 2 ^ s := by
+  unfold digitIndex; rw [bitShift_pow2 hs, Nat.shiftRight_eq_div_pow]
+
+theorem bitIndex_eq (s i : Nat) : bitIndex (2 ^ s) i = i % 2 ^ s := by
+  unfold bitIndex; rw [Nat.and_two_pow_sub_one_eq_mod]
+
+theorem and_one_shiftLeft_ne_zero (d t : Nat) : ((d &&& (1 <<< t)) != 0) = d.testBit t := by
+  rw [Nat.one_shiftLeft]
+  cases h : d.testBit t
+  · have : d &&& 2 ^ t = 0 := by
+      apply Nat.eq_of_testBit_eq; intro i
+      rw [Nat.testBit_and, Nat.testBit_two_pow, Nat.zero_testBit]
+      by_cases hi : t = i
+      · subst hi; simp [h]
+      · simp [hi]
+    simp [this]
+  · have : (d &&& 2 ^ t).testBit t = true := by
+      rw [Nat.testBit_and, Nat.testBit_two_pow, h]; simp
+    have h0 : d &&& 2 ^ t ≠ 0 := by
+      intro e; rw [e, Nat.zero_testBit] at this; exact Bool.false_ne_true this
+    simp [h0]
+
+theorem div_lt_iff' {w i n : Nat} (hw : 0 < w) : i / w < n ↔ i < w * n := by
+  rw [Nat.div_lt_iff_lt_mul hw, Nat.mul_comm]
+
+/-- C06: `bit(i)` panics for `i ≥ BITS` (array index out of bounds) and otherwise reads exactly
+    bit `i` of the pattern.  (`w = 2^s`: see the modelling note in Model/BitOps.lean.) -/
+theorem bit_spec {s n : Nat} (hs : s < 32) {x : List Nat} (hx : WF (2 ^ s) n x) (i : Nat) :
+    UI.bit (2 ^ s) x i =
+      if i < 2 ^ s * n then .ok ((U (2 ^ s) x).testBit i) else .panic := by
+  have hw : 0 < 2 ^ s := Nat.two_pow_pos s
+  unfold UI.bit
+  rw [digitIndex_eq hs, bitIndex_eq]
+  by_cases hi : i < 2 ^ s * n
+  · have hlt : i / 2 ^ s < x.length := by rw [hx.1]; exact (div_lt_iff' hw).mpr hi
+    rw [if_pos hi, List.getElem?_eq_getElem hlt]
+    simp only [and_one_shiftLeft_ne_zero]
+    rw [testBit_U' hw hx.2, List.getD_eq_getElem?_getD, List.getElem?_eq_getElem hlt]; rfl
+  · have : x[i / 2 ^ s]? = none := by
+      rw [List.getElem?_eq_none_iff, hx.1]
+      have := (div_lt_iff' (n := n) (i := i) hw); omega
+    rw [if_neg hi, this]
+
+theorem Digits_set {w : Nat} {x : List Nat} (hx : Digits w x) {k e : Nat} (he : e < B w) :
+    Digits w (x.set k e) := by
+  intro d hd
+  rcases List.mem_or_eq_of_mem_set hd with h | h
+  · exact hx d h
+  · subst h; exact he
+
+/-- the digit written by `set_bit` -/
+theorem setBit_digit {w d t : Nat} (hd : d < 2 ^ w) (ht : t < w) (v : Bool) :
+    ((d &&& Prim.not w (1 <<< t)) ||| (v.toNat <<< t)) < 2 ^ w ∧
+    ∀ j, ((d &&& Prim.not w (1 <<< t)) ||| (v.toNat <<< t)).testBit j =
+      if j = t then v else d.testBit j := by
+  have h2t : 2 ^ t < 2 ^ w := Nat.pow_lt_pow_right (by decide) ht
+  have hb : ∀ j, ((d &&& Prim.not w (1 <<< t)) ||| (v.toNat <<< t)).testBit j =
+      if j = t then v else d.testBit j := by
+    intro j
+    unfold Prim.not
+    rw [Nat.one_shiftLeft, B_eq_two_pow, Nat.testBit_or, Nat.testBit_and, testBit_compl h2t,
+      Nat.testBit_two_pow, Nat.testBit_shiftLeft, Nat.testBit_bool_toNat]
+    by_cases hj : j = t
+    · subst hj; simp
+    · have h1 : ¬ t = j := fun h => hj h.symm
+      by_cases hjw : j < w
+      · by_cases hge : j ≥ t
+        · have : ¬ j - t = 0 := by omega
+          simp [hj, h1, hjw, this]
+        · simp [hj, h1, hjw, hge]
+      · have := testBit_eq_false_of_lt hd (Nat.le_of_not_lt hjw)
+        by_cases hge : j ≥ t
+        · have h3 : ¬ j - t = 0 := by omega
+          simp [hj, hjw, this, h3]
+        · simp [hj, hjw, this, hge]
+  refine ⟨?_, hb⟩
+  apply Nat.lt_pow_two_of_testBit
+  intro j hj
+  rw [hb j, if_neg (by omega)]
+  exact testBit_eq_false_of_lt hd hj
+
+/-- C06: `set_bit(i, v)` panics for `i ≥ BITS`; otherwise the result is well-formed, its bit `i`
+    is `v` and every other bit is unchanged. -/
+theorem setBit_spec {s n : Nat} (hs : s < 32) {x : List Nat} (hx : WF (2 ^ s) n x) (i : Nat)
+    (v : Bool) :
+    (2 ^ s * n ≤ i → UI.setBit (2 ^ s) x i v = .panic) ∧
+    (i < 2 ^ s * n → ∃ r, UI.setBit (2 ^ s) x i v = .ok r ∧ WF (2 ^ s) n r ∧
+      ∀ j, (U (2 ^ s) r).testBit j = if j = i then v else (U (2 ^ s) x).testBit j) := by
+  have hw : 0 < 2 ^ s := Nat.two_pow_pos s
+  unfold UI.setBit
+  rw [digitIndex_eq hs, bitIndex_eq]
+  constructor
+  · intro hi
+    have : x[i / 2 ^ s]? = none := by
+      rw [List.getElem?_eq_none_iff, hx.1]
+      have := (div_lt_iff' (n := n) (i := i) hw); omega
+    rw [this]
+  · intro hi
+    have hlt : i / 2 ^ s < x.length := by rw [hx.1]; exact (div_lt_iff' hw).mpr hi
+    rw [List.getElem?_eq_getElem hlt]
+    have hd : x[i / 2 ^ s] < 2 ^ 2 ^ s := hx.2 _ (List.getElem_mem hlt)
+    obtain ⟨h1, h2⟩ := setBit_digit hd (Nat.mod_lt i hw) v
+    dsimp only
+    generalize (x[i / 2 ^ s] &&& Prim.not (2 ^ s) (1 <<< (i % 2 ^ s))) |||
+      (v.toNat <<< (i % 2 ^ s)) = e at h1 h2 ⊢
+    have hdig : Digits (2 ^ s) (x.set (i / 2 ^ s) e) := Digits_set hx.2 h1
+    refine ⟨_, rfl, ⟨by simp [hx.1], hdig⟩, ?_⟩
+    intro j
+    rw [testBit_U' hw hdig, testBit_U' hw hx.2, List.getD_eq_getElem?_getD,
+      List.getD_eq_getElem?_getD, List.getElem?_set]
+    by_cases hq : i / 2 ^ s = j / 2 ^ s
+    · rw [if_pos hq, if_pos hlt, Option.getD_some, h2, ← hq, List.getElem?_eq_getElem hlt,
+        Option.getD_some]
+      by_cases hji : j = i
+      · subst hji; simp
+      · have : ¬ j % 2 ^ s = i % 2 ^ s := by
+          intro hm
+          have e1 := Nat.div_add_mod i (2 ^ s)
+          have e2 := Nat.div_add_mod j (2 ^ s)
+          rw [hq] at e1; omega
+        rw [if_neg this, if_neg hji]
+    · have hji : ¬ j = i := by intro h; subst h; exact hq rfl
+      rw [if_neg hq, if_neg hji]
+
+theorem U_set_zero {w : Nat} (e : Nat) : ∀ (n k : Nat), k < n →
+    U w ((zero n).set k e) = B w ^ k * e
+  | 0, k, h => by omega
+  | n + 1, 0, _ => by
+    simp [zero, List.replicate_succ, U_replicate_zero]
+  | n + 1, k + 1, h => by
+    have := U_set_zero (w := w) e n k (by omega)
+    unfold zero at this ⊢
+    simp only [List.replicate_succ, List.set_cons_succ, U_cons, this]
+    rw [Nat.pow_succ]; ring
+
+/-- C06: `power_of_two(k)` panics for `k ≥ BITS` and otherwise is `2^k`. -/
+theorem powerOfTwo_spec {s : Nat} (hs : s < 32) (n k : Nat) :
+    (2 ^ s * n ≤ k → UI.powerOfTwo (2 ^ s) n k = .panic) ∧
+    (k < 2 ^ s * n → ∃ r, UI.powerOfTwo (2 ^ s) n k = .ok r ∧ WF (2 ^ s) n r ∧
+      U (2 ^ s) r = 2 ^ k) := by
+  have hw : 0 < 2 ^ s := Nat.two_pow_pos s
+  unfold UI.powerOfTwo
+  rw [digitIndex_eq hs, bitIndex_eq]
+  have hiff := div_lt_iff' (n := n) (i := k) hw
+  constructor
+  · intro hk; rw [if_neg (by omega)]
+  · intro hk
+    rw [if_pos (hiff.mpr hk)]
+    have h2 : (1 : Nat) <<< (k % 2 ^ s) < B (2 ^ s) := by
+      rw [Nat.one_shiftLeft, B_eq_two_pow]
+      exact Nat.pow_lt_pow_right (by decide) (Nat.mod_lt k hw)
+    refine ⟨_, rfl, ⟨by simp [zero], Digits_set (WF_zero _ n).2 h2⟩, ?_⟩
+    rw [U_set_zero _ n _ (hiff.mpr hk), Nat.one_shiftLeft, B_eq_two_pow, ← Nat.pow_mul,
+      ← Nat.pow_add, Nat.div_add_mod]
+
+/-! ### G. is_power_of_two -/
+
+theorem isPow2Loop_spec {w : Nat} : ∀ (x : List Nat), Digits w x → ∀ ones,
+    UI.isPow2Loop w x ones = (ones + Spec.popcount (w * x.length) (U w x) == 1)
+  | [], _, ones => by simp [UI.isPow2Loop, Spec.popcount]
+  | d :: ds, hx, ones => by
+    rw [Digits_cons] at hx
+    simp only [UI.isPow2Loop, List.length_cons, U_cons]
+    rw [Nat.mul_add, Nat.mul_one, Nat.add_comm (w * ds.length) w, B_eq_two_pow,
+      popcount_add w _ d _ hx.1, Prim.countOnes, popLoop_eq]
+    by_cases h : ones + Spec.popcount w d > 1
+    · rw [if_pos h]; symm; rw [beq_eq_false_iff_ne]; omega
+    · rw [if_neg h, isPow2Loop_spec ds hx.2, Nat.add_assoc]
+
+/-- C06: `is_power_of_two` ⇔ the pattern is `2^k` for some `k` (in particular non-zero). -/
+theorem isPowerOfTwo_iff {w n : Nat} {x : List Nat} (hx : WF w n x) :
+    UI.isPowerOfTwo w x = true ↔ ∃ k, U w x = 2 ^ k := by
+  unfold UI.isPowerOfTwo
+  rw [isPow2Loop_spec x hx.2, hx.1, beq_iff_eq, Nat.zero_add]
+  exact popcount_eq_one (w * n) (U w x) (U_lt hx)
+
+/-- signed `is_power_of_two` ⇔ the two's-complement value is `2^k` -/
+theorem i_isPowerOfTwo_iff {w n : Nat} (hw : 1 ≤ w) (hn : 1 ≤ n) {x : List Nat} (hx : WF w n x) :
+    II.isPowerOfTwo w x = true ↔ ∃ k : Nat, S w x = 2 ^ k := by
+  unfold II.isPowerOfTwo
+  have hneg := isNegative_iff' hw hn hx
+  have hp := isPowerOfTwo_iff hx
+  by_cases h : S w x < 0
+  · rw [hneg.mpr h]
+    simp only [Bool.not_true, Bool.false_and, Bool.false_eq_true, false_iff]
+    rintro ⟨k, hk⟩
+    have : (0 : Int) < 2 ^ k := by positivity
+    omega
+  · have h' : isNegative w x = false := by
+      cases hh : isNegative w x
+      · rfl
+      · exact absurd (hneg.mp hh) h
+    rw [h', Bool.not_false, Bool.true_and, hp, S_of_nonneg hx (by omega)]
+    constructor
+    · rintro ⟨k, hk⟩; exact ⟨k, by rw [hk]; push_cast; rfl⟩
+    · rintro ⟨k, hk⟩; exact ⟨k, by exact_mod_cast hk⟩
+
+/-! ### H. next_power_of_two -/
+
+/-- `p` is the least power of two `≥ v` -/
+def IsNextPow2 (v p : Nat) : Prop := ∃ k, p = 2 ^ k ∧ v ≤ p ∧ ∀ j, v ≤ 2 ^ j → k ≤ j
+
+theorem pow_le_pow_of_lt {a b : Nat} (h : a < b) : 2 ^ a ≤ 2 ^ (b - 1) :=
+  Nat.pow_le_pow_right (by decide) (by omega)
+
+theorem bitLen_le_of_le_two_pow {v : Nat} (hnp : ¬ ∃ k, v = 2 ^ k) {j : Nat} (hj : v ≤ 2 ^ j) :
+    Spec.bitLen v ≤ j := by
+  by_contra hc
+  by_cases h0 : v = 0
+  · subst h0; rw [bitLen_zero] at hc; omega
+  · have h1 := two_pow_le_of_bitLen h0
+    have h2 := pow_le_pow_of_lt (show j < Spec.bitLen v by omega)
+    exact hnp ⟨Spec.bitLen v - 1, by omega⟩
+
+/-- a non-power-of-two `v`: the next power of two is `2^bitLen v` -/
+theorem isNextPow2_bitLen {v : Nat} (hnp : ¬ ∃ k, v = 2 ^ k) :
+    IsNextPow2 v (2 ^ Spec.bitLen v) :=
+  ⟨_, rfl, Nat.le_of_lt (lt_two_pow_bitLen v), fun _ hj => bitLen_le_of_le_two_pow hnp hj⟩
+
+/-- C06: `checked_next_power_of_two` never panics; `Some r` ⇒ `r` is the least power of two
+    `≥ self`; `None` ⇒ no power of two `≥ self` fits in `BITS` bits. -/
+theorem checkedNextPowerOfTwo_spec {s n : Nat} (hs : s < 32) {x : List Nat}
+    (hx : WF (2 ^ s) n x) :
+    (∃ r, UI.checkedNextPowerOfTwo (2 ^ s) x = .ok (some r) ∧ WF (2 ^ s) n r ∧
+      IsNextPow2 (U (2 ^ s) x) (U (2 ^ s) r)) ∨
+    (UI.checkedNextPowerOfTwo (2 ^ s) x = .ok none ∧
+      ∀ k, U (2 ^ s) x ≤ 2 ^ k → M (2 ^ s) n ≤ 2 ^ k) := by
+  unfold UI.checkedNextPowerOfTwo
+  have hp := isPowerOfTwo_iff hx
+  by_cases h : UI.isPowerOfTwo (2 ^ s) x = true
+  · left
+    rw [if_pos h]
+    obtain ⟨k, hk⟩ := hp.mp h
+    refine ⟨x, rfl, hx, k, hk, Nat.le_refl _, ?_⟩
+    intro j hj
+    rw [hk] at hj
+    exact (Nat.pow_le_pow_iff_right (by decide)).mp hj
+  · rw [if_neg h]
+    have hnp : ¬ ∃ k, U (2 ^ s) x = 2 ^ k := fun e => h (hp.mpr e)
+    dsimp only
+    rw [bits_spec hx, hx.1]
+    have hnext := isNextPow2_bitLen hnp
+    have hle := bitLen_le_of_lt (U_lt hx)
+    by_cases hb : Spec.bitLen (U (2 ^ s) x) = 2 ^ s * n
+    · right
+      simp only [hb, beq_self_eq_true, if_true, true_and]
+      intro k hk
+      have := bitLen_le_of_le_two_pow hnp hk
+      rw [hb] at this
+      exact Nat.pow_le_pow_right (by decide) this
+    · left
+      have : (Spec.bitLen (U (2 ^ s) x) == 2 ^ s * n) = false := by simpa using hb
+      rw [this]
+      obtain ⟨r, h1, h2, h3⟩ := (powerOfTwo_spec hs n (Spec.bitLen (U (2 ^ s) x))).2 (by omega)
+      refine ⟨r, by simp [h1, Outcome.map], h2, ?_⟩
+      rw [h3]; exact hnext
+
+theorem wrappingNextPowerOfTwo_spec {s n : Nat} (hs : s < 32) {x : List Nat}
+    (hx : WF (2 ^ s) n x) :
+    ∃ r, UI.wrappingNextPowerOfTwo (2 ^ s) x = .ok r ∧ WF (2 ^ s) n r ∧
+      (IsNextPow2 (U (2 ^ s) x) (U (2 ^ s) r) ∨
+       (U (2 ^ s) r = 0 ∧ ∀ k, U (2 ^ s) x ≤ 2 ^ k → M (2 ^ s) n ≤ 2 ^ k)) := by
+  unfold UI.wrappingNextPowerOfTwo
+  rcases checkedNextPowerOfTwo_spec hs hx with ⟨r, h1, h2, h3⟩ | ⟨h1, h2⟩
+  · exact ⟨r, by simp [h1, Outcome.map], h2, Or.inl h3⟩
+  · refine ⟨zero n, by simp [h1, Outcome.map, hx.1], WF_zero _ n, Or.inr ⟨U_zero _ n, h2⟩⟩
+
+/-- `next_power_of_two`: debug build panics exactly when nothing fits, release build wraps to 0 -/
+theorem nextPowerOfTwo_spec {s n : Nat} (hs : s < 32) (dbg : Bool) {x : List Nat}
+    (hx : WF (2 ^ s) n x) :
+    (∃ r, UI.nextPowerOfTwo dbg (2 ^ s) x = .ok r ∧ WF (2 ^ s) n r ∧
+      IsNextPow2 (U (2 ^ s) x) (U (2 ^ s) r)) ∨
+    ((∀ k, U (2 ^ s) x ≤ 2 ^ k → M (2 ^ s) n ≤ 2 ^ k) ∧
+      UI.nextPowerOfTwo dbg (2 ^ s) x = if dbg then .panic else .ok (zero n)) := by
+  unfold UI.nextPowerOfTwo UI.wrappingNextPowerOfTwo
+  rcases checkedNextPowerOfTwo_spec hs hx with ⟨r, h1, h2, h3⟩ | ⟨h1, h2⟩
+  · left
+    refine ⟨r, ?_, h2, h3⟩
+    cases dbg <;> simp [h1, Outcome.map, Outcome.bind, Outcome.expect]
+  · right
+    refine ⟨h2, ?_⟩
+    cases dbg <;> simp [h1, Outcome.map, Outcome.bind, Outcome.expect, hx.1]
+
+/-! ### I. reverse_bits, swap_bytes -/
+
+theorem revLoop_testBit : ∀ (f x acc i : Nat),
+    (Prim.revLoop f x acc).testBit i =
+      if i < f then x.testBit (f - 1 - i) else acc.testBit (i - f)
+  | 0, x, acc, i => by simp [Prim.revLoop]
+  | f + 1, x, acc, i => by
+    unfold Prim.revLoop
+    rw [revLoop_testBit f (x / 2) (2 * acc + x % 2) i]
+    by_cases h1 : i < f
+    · rw [if_pos h1, if_pos (by omega), Nat.testBit_div_two]
+      congr 1; omega
+    · rw [if_neg h1]
+      by_cases h2 : i = f
+      · subst h2
+        rw [if_pos (by omega), Nat.sub_self, Nat.testBit_zero]
+        have : i + 1 - 1 - i = 0 := by omega
+        rw [this, Nat.testBit_zero]
+        congr 1; apply propext; omega
+      · rw [if_neg (by omega)]
+        obtain ⟨m, hm⟩ : ∃ m, i - f = m + 1 := ⟨i - f - 1, by omega⟩
+        have e : i - (f + 1) = m := by omega
+        rw [hm, e, Nat.testBit_succ]
+        congr 1; omega
+
+theorem reverseBits_prim (w d i : Nat) :
+    (Prim.reverseBits w d).testBit i = (decide (i < w) && d.testBit (w - 1 - i)) := by
+  unfold Prim.reverseBits
+  rw [revLoop_testBit]; split <;> simp [*]
+
+theorem reverseBits_prim_lt (w d : Nat) : Prim.reverseBits w d < 2 ^ w := by
+  apply Nat.lt_pow_two_of_testBit
+  intro i hi
+  rw [reverseBits_prim]; simp; omega
+
+theorem reverseBits_prim_invol {w d : Nat} (hd : d < 2 ^ w) :
+    Prim.reverseBits w (Prim.reverseBits w d) = d := by
+  apply Nat.eq_of_testBit_eq; intro i
+  rw [reverseBits_prim, reverseBits_prim]
+  by_cases hi : i < w
+  · have e : w - 1 - (w - 1 - i) = i := by omega
+    have h2 : w - 1 - i < w := by omega
+    simp [hi, h2, e]
+  · rw [testBit_eq_false_of_lt (i := i) hd (by omega)]; simp [hi]
+
+theorem swapLoop_testBit : ∀ (f x acc i : Nat),
+    (Prim.swapLoop f x acc).testBit i =
+      if i < 8 * f then x.testBit (8 * (f - 1 - i / 8) + i % 8) else acc.testBit (i - 8 * f)
+  | 0, x, acc, i => by simp [Prim.swapLoop]
+  | f + 1, x, acc, i => by
+    unfold Prim.swapLoop
+    rw [swapLoop_testBit f (x / 256) (256 * acc + x % 256) i]
+    have e256 : (256 : Nat) = 2 ^ 8 := by decide
+    by_cases h1 : i < 8 * f
+    · rw [if_pos h1, if_pos (by omega), e256, Nat.testBit_div_two_pow]
+      congr 1; omega
+    · rw [if_neg h1, e256,
+        Nat.testBit_two_pow_mul_add acc (Nat.mod_lt x (Nat.two_pow_pos 8)), Nat.testBit_mod_two_pow]
+      by_cases h2 : i < 8 * (f + 1)
+      · rw [if_pos h2, if_pos (by omega)]
+        have : decide (i - 8 * f < 8) = true := by simp; omega
+        rw [this, Bool.true_and]
+        congr 1; omega
+      · rw [if_neg h2, if_neg (by omega)]
+        congr 1
+
+/-- bit `i` of `swap_bytes` of a digit of `8*nb` bits -/
+theorem swapBytes_prim (nb d i : Nat) :
+    (Prim.swapBytes (8 * nb) d).testBit i =
+      (decide (i < 8 * nb) && d.testBit (8 * (nb - 1 - i / 8) + i % 8)) := by
+  unfold Prim.swapBytes
+  have : 8 * nb / 8 = nb := by omega
+  rw [this, swapLoop_testBit]; split <;> simp [*]
+
+theorem swapBytes_prim_lt (nb d : Nat) : Prim.swapBytes (8 * nb) d < 2 ^ (8 * nb) := by
+  apply Nat.lt_pow_two_of_testBit
+  intro i hi
+  rw [swapBytes_prim]; simp; omega
+
+theorem swapBytes_prim_invol {nb d : Nat} (hd : d < 2 ^ (8 * nb)) :
+    Prim.swapBytes (8 * nb) (Prim.swapBytes (8 * nb) d) = d := by
+  apply Nat.eq_of_testBit_eq; intro i
+  rw [swapBytes_prim, swapBytes_prim]
+  by_cases hi : i < 8 * nb
+  · have h2 : 8 * (nb - 1 - i / 8) + i % 8 < 8 * nb := by omega
+    have e : 8 * (nb - 1 - (8 * (nb - 1 - i / 8) + i % 8) / 8) + (8 * (nb - 1 - i / 8) + i % 8) % 8
+        = i := by omega
+    rw [e]; simp [hi, h2]
+  · rw [testBit_eq_false_of_lt (i := i) hd (by omega)]; simp [hi]
+
+theorem Digits_map {w : Nat} {x : List Nat} {f : Nat → Nat} (hf : ∀ d, f d < B w) :
+    Digits w (x.map f) := by
+  intro d hd
+  obtain ⟨e, _, rfl⟩ := List.mem_map.mp hd
+  exact hf e
+
+/-- `out[i] = f(self[N-1-i])` where `f` permutes the bits of a digit by `σ` -/
+theorem testBit_U_reverse_map {w : Nat} (f : Nat → Nat) (σ : Nat → Nat)
+    (hlt : ∀ d, f d < 2 ^ w) (hf : ∀ d t, t < w → (f d).testBit t = d.testBit (σ t))
+    (hσ : ∀ t, t < w → σ t < w) {x : List Nat} (hx : Digits w x) {j t : Nat}
+    (hj : j < x.length) (ht : t < w) :
+    (U w (x.reverse.map f)).testBit (w * j + t) =
+      (U w x).testBit (w * (x.length - 1 - j) + σ t) := by
+  have hr : Digits w (x.reverse.map f) := Digits_map hlt
+  have hk : x.length - 1 - j < x.length := by omega
+  rw [testBit_U _ hr j t ht, testBit_U _ hx _ _ (hσ t ht), List.getD_eq_getElem?_getD,
+    List.getD_eq_getElem?_getD, List.getElem?_map, List.getElem?_reverse hj,
+    List.getElem?_eq_getElem hk]
+  simp [hf _ t ht]
+
+/-- C06: `reverse_bits`: bit `i` of the result is bit `BITS-1-i` of the argument. -/
+theorem reverseBits_spec {w n : Nat} (hw : 1 ≤ w) {x : List Nat} (hx : WF w n x) :
+    WF w n (UI.reverseBits w x) ∧
+    ∀ i, i < w * n → (U w (UI.reverseBits w x)).testBit i = (U w x).testBit (w * n - 1 - i) := by
+  unfold UI.reverseBits
+  refine ⟨⟨by simp [hx.1], Digits_map (reverseBits_prim_lt w)⟩, ?_⟩
+  intro i hi
+  have hj : i / w < x.length := by rw [hx.1]; exact (div_lt_iff' hw).mpr hi
+  have ht : i % w < w := Nat.mod_lt _ hw
+  have := testBit_U_reverse_map (w := w) (Prim.reverseBits w) (fun t => w - 1 - t)
+    (reverseBits_prim_lt w) (fun d t ht => by rw [reverseBits_prim]; simp [ht])
+    (fun t ht => by omega) hx.2 hj ht
+  rw [Nat.div_add_mod] at this
+  rw [this, hx.1]
+  congr 1
+  obtain ⟨m, hm⟩ : ∃ m, n = i / w + 1 + m := ⟨n - 1 - i / w, by rw [hx.1] at hj; omega⟩
+  have e1 : n - 1 - i / w = m := by omega
+  have e2 : w * n = w * (i / w) + w + w * m := by rw [hm]; ring
+  have e3 := Nat.div_add_mod i w
+  rw [e1, e2]; omega
+
+theorem map_map_id {x : List Nat} {f : Nat → Nat} (h : ∀ d ∈ x, f (f d) = d) :
+    (x.map f).map f = x := by
+  induction x with
+  | nil => rfl
+  | cons d ds ih =>
+    simp only [List.map_cons]
+    rw [h d (by simp), ih (fun e he => h e (by simp [he]))]
+
+/-- C06: `reverse_bits` is an involution. -/
+theorem reverseBits_invol {w n : Nat} {x : List Nat} (hx : WF w n x) :
+    UI.reverseBits w (UI.reverseBits w x) = x := by
+  unfold UI.reverseBits
+  rw [← List.map_reverse, List.reverse_reverse]
+  exact map_map_id (fun d hd => reverseBits_prim_invol (hx.2 d hd))
+
+/-- C06: `swap_bytes` (digit width a multiple of 8): bit `i` of the result is the bit at the same
+    position inside the mirrored byte, i.e. byte `k` of the result is byte `BYTES-1-k`. -/
+theorem swapBytes_spec {nb n : Nat} (hnb : 1 ≤ nb) {x : List Nat} (hx : WF (8 * nb) n x) :
+    WF (8 * nb) n (UI.swapBytes (8 * nb) x) ∧
+    ∀ i, i < 8 * nb * n → (U (8 * nb) (UI.swapBytes (8 * nb) x)).testBit i =
+      (U (8 * nb) x).testBit (8 * (nb * n - 1 - i / 8) + i % 8) := by
+  unfold UI.swapBytes
+  refine ⟨⟨by simp [hx.1], Digits_map (swapBytes_prim_lt nb)⟩, ?_⟩
+  intro i hi
+  have hw : 0 < 8 * nb := by omega
+  have hj : i / (8 * nb) < x.length := by rw [hx.1]; exact (div_lt_iff' hw).mpr hi
+  have ht : i % (8 * nb) < 8 * nb := Nat.mod_lt _ hw
+  have := testBit_U_reverse_map (w := 8 * nb) (Prim.swapBytes (8 * nb))
+    (fun t => 8 * (nb - 1 - t / 8) + t % 8)
+    (swapBytes_prim_lt nb) (fun d t ht => by rw [swapBytes_prim]; simp [ht])
+    (fun t ht => by omega) hx.2 hj ht
+  rw [Nat.div_add_mod] at this
+  rw [this, hx.1]
+  congr 1
+  have e3 := Nat.div_add_mod i (8 * nb)
+  generalize i / (8 * nb) = q at *
+  generalize i % (8 * nb) = t at *
+  obtain ⟨m, hm⟩ : ∃ m, n = q + 1 + m := ⟨n - 1 - q, by rw [hx.1] at hj; omega⟩
+  have e1 : n - 1 - q = m := by omega
+  have e2 : nb * n = nb * q + nb + nb * m := by rw [hm]; ring
+  have e4 : 8 * nb * q = 8 * (nb * q) := by ring
+  have e5 : 8 * nb * m = 8 * (nb * m) := by ring
+  rw [e1, e2, ← e3, e4, e5]
+  generalize nb * q = a at *
+  generalize nb * m = b at *
+  omega
+
+/-- C06: `swap_bytes` is an involution. -/
+theorem swapBytes_invol {nb n : Nat} {x : List Nat} (hx : WF (8 * nb) n x) :
+    UI.swapBytes (8 * nb) (UI.swapBytes (8 * nb) x) = x := by
+  unfold UI.swapBytes
+  rw [← List.map_reverse, List.reverse_reverse]
+  exact map_map_id (fun d hd => swapBytes_prim_invol (hx.2 d hd))
+
+/-! ### J. the executable `Spec` functions mean what they say -/
+
+theorem spec_bit_eq (v i : Nat) : Spec.bit v i = v.testBit i := by
+  unfold Spec.bit; rw [Nat.testBit_eq_decide_div_mod_eq]
+
+theorem spec_isPow2_iff (v : Nat) : Spec.isPow2 v = true ↔ ∃ k, v = 2 ^ k := by
+  unfold Spec.isPow2
+  rw [decide_eq_true_iff]
+  constructor
+  · rintro ⟨_, h⟩; exact ⟨_, h.symm⟩
+  · rintro ⟨k, rfl⟩
+    have := Nat.two_pow_pos k
+    exact ⟨by omega, by rw [Nat.log2_two_pow]⟩
+
+theorem isNextPow2_unique {v p q : Nat} (hp : IsNextPow2 v p) (hq : IsNextPow2 v q) : p = q := by
+  obtain ⟨k, rfl, h1, h2⟩ := hp
+  obtain ⟨l, rfl, h3, h4⟩ := hq
+  have := h2 l h3; have := h4 k h1
+  have : k = l := by omega
+  rw [this]
+
+theorem spec_nextPow2 (v : Nat) : IsNextPow2 v (Spec.nextPow2 v) := by
+  unfold Spec.nextPow2
+  by_cases h : v ≤ 1
+  · rw [if_pos h]; exact ⟨0, rfl, h, fun j _ => Nat.zero_le j⟩
+  · rw [if_neg h]
+    refine ⟨_, rfl, ?_, ?_⟩
+    · have := lt_two_pow_bitLen (v - 1); omega
+    · intro j hj
+      rw [bitLen_le_iff]; omega
+
+/-- executable form of `checkedNextPowerOfTwo_spec`: the model answers what `Spec.checkedNextPow2`
+    answers -/
+theorem checkedNextPowerOfTwo_eq_spec {s n : Nat} (hs : s < 32) {x : List Nat}
+    (hx : WF (2 ^ s) n x) :
+    (UI.checkedNextPowerOfTwo (2 ^ s) x).map (Option.map (U (2 ^ s))) =
+      .ok (Spec.checkedNextPow2 (2 ^ s * n) (U (2 ^ s) x)) := by
+  have hsp := spec_nextPow2 (U (2 ^ s) x)
+  unfold Spec.checkedNextPow2
+  rcases checkedNextPowerOfTwo_spec hs hx with ⟨r, h1, h2, h3⟩ | ⟨h1, h2⟩
+  · have hlt : U (2 ^ s) r < 2 ^ (2 ^ s * n) := U_lt h2
+    rw [h1, ← isNextPow2_unique h3 hsp, if_pos hlt]; rfl
+  · obtain ⟨k, hk, hle, _⟩ := hsp
+    have : 2 ^ (2 ^ s * n) ≤ 2 ^ k := h2 k (by rw [← hk]; exact hle)
+    rw [h1, if_neg (by rw [hk]; exact Nat.not_lt.mpr this)]; rfl
+
+/-! ### K. `Spec.reverseBits`, `Spec.swapBytes`, `Spec.setBit` and the model -/
+
+theorem spec_reverseBits_aux : ∀ (W v : Nat), Spec.reverseBits W v < 2 ^ W ∧
+    ∀ i, (Spec.reverseBits W v).testBit i = (decide (i < W) && v.testBit (W - 1 - i))
+  | 0, v => by simp [Spec.reverseBits]
+  | W + 1, v => by
+    obtain ⟨h1, h2⟩ := spec_reverseBits_aux W (v / 2)
+    have hb : v % 2 < 2 ^ 1 := by omega
+    have e : Spec.reverseBits (W + 1) v = 2 ^ W * (v % 2) + Spec.reverseBits W (v / 2) := by
+      simp only [Spec.reverseBits]; rw [Nat.mul_comm]
+    have ht : ∀ i, (Spec.reverseBits (W + 1) v).testBit i =
+        (decide (i < W + 1) && v.testBit (W + 1 - 1 - i)) := by
+      intro i
+      rw [e, Nat.testBit_two_pow_mul_add _ h1, h2]
+      by_cases hi : i < W
+      · have e2 : W + 1 - 1 - i = (W - 1 - i) + 1 := by omega
+        rw [if_pos hi, e2, Nat.testBit_succ]
+        simp [hi, Nat.lt_succ_of_lt hi]
+      · rw [if_neg hi]
+        by_cases hi2 : i = W
+        · subst hi2
+          have : i + 1 - 1 - i = 0 := by omega
+          rw [Nat.sub_self, this, Nat.testBit_zero, Nat.testBit_zero]
+          simp
+        · have : 1 ≤ i - W := by omega
+          rw [testBit_eq_false_of_lt hb this]
+          have : ¬ i < W + 1 := by omega
+          simp [this]
+    refine ⟨?_, ht⟩
+    apply Nat.lt_pow_two_of_testBit
+    intro i hi
+    rw [ht]; simp; omega
+
+/-- the executable `Spec.reverseBits` is the bit reversal of the low `W` bits -/
+theorem spec_reverseBits_testBit (W v i : Nat) :
+    (Spec.reverseBits W v).testBit i = (decide (i < W) && v.testBit (W - 1 - i)) :=
+  (spec_reverseBits_aux W v).2 i
+
+theorem reverseBits_eq_spec {w n : Nat} (hw : 1 ≤ w) {x : List Nat} (hx : WF w n x) :
+    U w (UI.reverseBits w x) = Spec.reverseBits (w * n) (U w x) := by
+  obtain ⟨h1, h2⟩ := reverseBits_spec hw hx
+  apply Nat.eq_of_testBit_eq; intro i
+  rw [spec_reverseBits_testBit]
+  by_cases hi : i < w * n
+  · rw [h2 i hi]; simp [hi]
+  · rw [testBit_eq_false_of_lt (U_lt h1) (by omega)]; simp [hi]
+
+theorem spec_swapBytes_aux : ∀ (nb v : Nat), Spec.swapBytesAux nb v < 2 ^ (8 * nb) ∧
+    ∀ i, (Spec.swapBytesAux nb v).testBit i =
+      (decide (i < 8 * nb) && v.testBit (8 * (nb - 1 - i / 8) + i % 8))
+  | 0, v => by simp [Spec.swapBytesAux]
+  | nb + 1, v => by
+    obtain ⟨h1, h2⟩ := spec_swapBytes_aux nb (v / 256)
+    have e256 : (256 : Nat) = 2 ^ 8 := by decide
+    have hb : v % 256 < 2 ^ 8 := by omega
+    have e : Spec.swapBytesAux (nb + 1) v =
+        2 ^ (8 * nb) * (v % 2 ^ 8) + Spec.swapBytesAux nb (v / 2 ^ 8) := by
+      simp only [Spec.swapBytesAux]; rw [Nat.mul_comm, e256, ← Nat.pow_mul]
+    have ht : ∀ i, (Spec.swapBytesAux (nb + 1) v).testBit i =
+        (decide (i < 8 * (nb + 1)) && v.testBit (8 * (nb + 1 - 1 - i / 8) + i % 8)) := by
+      intro i
+      rw [e256] at h1 h2
+      rw [e, Nat.testBit_two_pow_mul_add _ h1, h2]
+      by_cases hi : i < 8 * nb
+      · have e2 : 8 * (nb + 1 - 1 - i / 8) + i % 8 = (8 * (nb - 1 - i / 8) + i % 8) + 8 := by omega
+        have h3 : i < 8 * (nb + 1) := by omega
+        rw [if_pos hi, e2, Nat.testBit_div_two_pow]
+        simp [hi, h3]
+      · rw [if_neg hi, Nat.testBit_mod_two_pow]
+        by_cases hi2 : i < 8 * (nb + 1)
+        · have e3 : 8 * (nb + 1 - 1 - i / 8) + i % 8 = i - 8 * nb := by omega
+          have h4 : i - 8 * nb < 8 := by omega
+          rw [e3]; simp [hi2, h4]
+        · have h4 : ¬ i - 8 * nb < 8 := by omega
+          simp [hi2, h4]
+    refine ⟨?_, ht⟩
+    apply Nat.lt_pow_two_of_testBit
+    intro i hi
+    rw [ht]; simp; omega
+
+theorem swapBytes_eq_spec {nb n : Nat} (hnb : 1 ≤ nb) {x : List Nat} (hx : WF (8 * nb) n x) :
+    U (8 * nb) (UI.swapBytes (8 * nb) x) = Spec.swapBytes (8 * nb * n) (U (8 * nb) x) := by
+  obtain ⟨h1, h2⟩ := swapBytes_spec hnb hx
+  have e : 8 * nb * n / 8 = nb * n := by rw [Nat.mul_assoc]; omega
+  apply Nat.eq_of_testBit_eq; intro i
+  unfold Spec.swapBytes
+  rw [e, (spec_swapBytes_aux (nb * n) _).2 i]
+  by_cases hi : i < 8 * nb * n
+  · have : i < 8 * (nb * n) := by rw [← Nat.mul_assoc]; exact hi
+    rw [h2 i hi]; simp [this]
+  · have : ¬ i < 8 * (nb * n) := by rw [← Nat.mul_assoc]; exact hi
+    rw [testBit_eq_false_of_lt (U_lt h1) (by omega)]; simp [this]
+
+/-- the executable `Spec.setBit` replaces bit `i` and nothing else -/
+theorem spec_setBit_testBit (v i : Nat) (b : Bool) (j : Nat) :
+    (Spec.setBit v i b).testBit j = if j = i then b else v.testBit j := by
+  have hlo : v % 2 ^ i < 2 ^ i := Nat.mod_lt _ (Nat.two_pow_pos i)
+  have hv : v = 2 ^ i * (v / 2 ^ i) + v % 2 ^ i := (Nat.div_add_mod v (2 ^ i)).symm
+  have hq : v / 2 ^ i = 2 * (v / 2 ^ i / 2) + v / 2 ^ i % 2 := (Nat.div_add_mod _ 2).symm
+  have e : Spec.setBit v i b = 2 ^ i * (2 * (v / 2 ^ i / 2) + b.toNat) + v % 2 ^ i := by
+    unfold Spec.setBit
+    generalize v % 2 ^ i = lo at *
+    generalize v / 2 ^ i = q at *
+    generalize 2 ^ i = p at *
+    have hbit : q % 2 = 0 ∨ q % 2 = 1 := by omega
+    generalize q / 2 = h at *
+    generalize q % 2 = bit at *
+    subst hq
+    rw [hv]
+    rcases hbit with hb | hb <;> subst hb <;> ring_nf <;> omega
+  rw [e, Nat.testBit_two_pow_mul_add _ hlo]
+  conv_rhs => rw [hv, Nat.testBit_two_pow_mul_add _ hlo]
+  by_cases hj : j < i
+  · rw [if_pos hj, if_pos hj, if_neg (by omega)]
+  · rw [if_neg hj, if_neg hj]
+    by_cases hji : j = i
+    · subst hji
+      rw [if_pos rfl, Nat.sub_self, Nat.testBit_zero]
+      cases b <;> simp
+    · rw [if_neg hji]
+      obtain ⟨m, hm⟩ : ∃ m, j - i = m + 1 := ⟨j - i - 1, by omega⟩
+      rw [hm, Nat.testBit_succ, Nat.testBit_succ]
+      congr 1
+      have := Bool.toNat_lt b
+      omega
+
+theorem setBit_eq_spec {s n : Nat} (hs : s < 32) {x : List Nat} (hx : WF (2 ^ s) n x) {i : Nat}
+    (hi : i < 2 ^ s * n) (v : Bool) :
+    ∃ r, UI.setBit (2 ^ s) x i v = .ok r ∧ WF (2 ^ s) n r ∧
+      U (2 ^ s) r = Spec.setBit (U (2 ^ s) x) i v := by
+  obtain ⟨r, h1, h2, h3⟩ := (setBit_spec hs hx i v).2 hi
+  refine ⟨r, h1, h2, ?_⟩
+  apply Nat.eq_of_testBit_eq; intro j
+  rw [h3, spec_setBit_testBit]
+
+/-! ### L. extreme patterns, `is_zero`, `is_one` -/
+
+theorem bitLen_two_pow_sub_one (W : Nat) : Spec.bitLen (2 ^ W - 1) = W := by
+  have hp := Nat.two_pow_pos W
+  have h1 := (bitLen_le_iff (2 ^ W - 1) W).mpr (by omega)
+  cases W with
+  | zero => simpa using h1
+  | succ W =>
+    have h2 : ¬ Spec.bitLen (2 ^ (W + 1) - 1) ≤ W := by
+      rw [bitLen_le_iff, Nat.pow_succ]; have := Nat.two_pow_pos W; omega
+    omega
+
+theorem popcount_zero (W : Nat) : Spec.popcount W 0 = 0 :=
+  (popcount_eq_zero W 0 (Nat.two_pow_pos W)).mpr rfl
+
+theorem popcount_ones (W : Nat) : Spec.popcount W (2 ^ W - 1) = W := by
+  have := popcount_compl W 0 (Nat.two_pow_pos W)
+  rw [popcount_zero] at this; simpa using this
+
+theorem trailingZeros_ones {W : Nat} (hW : 1 ≤ W) : Spec.trailingZeros W (2 ^ W - 1) = 0 := by
+  obtain ⟨k, rfl⟩ := Nat.exists_eq_add_of_le' hW
+  simp only [Spec.trailingZeros]
+  have : (2 ^ (k + 1) - 1) % 2 = 1 := by
+    rw [Nat.pow_succ]; have := Nat.two_pow_pos k; omega
+  rw [if_pos this]
+
+/-- C06: the all-zero pattern gives `BITS` zeros / `0` ones, for every count -/
+theorem counts_zero (w n : Nat) (hW : 1 ≤ w * n) :
+    UI.countOnes w (zero n) = 0 ∧ UI.countZeros w (zero n) = w * n ∧
+    UI.leadingZeros w (zero n) = w * n ∧ UI.trailingZeros w (zero n) = w * n ∧
+    UI.leadingOnes w (zero n) = 0 ∧ UI.trailingOnes w (zero n) = 0 ∧ UI.bits w (zero n) = 0 := by
+  have hz := WF_zero w n
+  rw [countOnes_spec hz, countZeros_spec hz, leadingZeros_spec hz, trailingZeros_spec hz,
+    leadingOnes_spec hz, trailingOnes_spec hz, bits_spec hz, U_zero]
+  unfold Spec.leadingOnes Spec.trailingOnes Spec.leadingZeros Spec.compl
+  simp only [popcount_zero, bitLen_zero, trailingZeros_zero, Nat.sub_zero, bitLen_two_pow_sub_one,
+    trailingZeros_ones hW, Nat.sub_self, and_self]
+
+/-- C06: the all-one pattern gives `BITS` ones / `0` zeros, for every count -/
+theorem counts_allOnes (w n : Nat) (hW : 1 ≤ w * n) :
+    UI.countOnes w (allOnes w n) = w * n ∧ UI.countZeros w (allOnes w n) = 0 ∧
+    UI.leadingZeros w (allOnes w n) = 0 ∧ UI.trailingZeros w (allOnes w n) = 0 ∧
+    UI.leadingOnes w (allOnes w n) = w * n ∧ UI.trailingOnes w (allOnes w n) = w * n ∧
+    UI.bits w (allOnes w n) = w * n := by
+  have hz := WF_allOnes w n
+  rw [countOnes_spec hz, countZeros_spec hz, leadingZeros_spec hz, trailingZeros_spec hz,
+    leadingOnes_spec hz, trailingOnes_spec hz, bits_spec hz, U_allOnes, M_eq_two_pow]
+  unfold Spec.leadingOnes Spec.trailingOnes Spec.leadingZeros Spec.compl
+  simp only [popcount_ones, bitLen_two_pow_sub_one, trailingZeros_ones hW, Nat.sub_self, bitLen_zero,
+    trailingZeros_zero, Nat.sub_zero, and_self]
+
+theorem isOne_iff {w n : Nat} (hw : 1 ≤ w) {x : List Nat} (hx : WF w n x) :
+    isOne x = true ↔ U w x = 1 := by
+  match x, hx with
+  | [], _ => simp [isOne]
+  | d :: ds, hx =>
+    have hz := Cmp.isZero_iff_U (w := w) ds
+    have hB := B_ge_two hw
+    have hd : d < B w := hx.2 d (by simp)
+    simp only [isOne]
+    rw [U_cons]
+    by_cases h1 : d = 1
+    · subst h1
+      simp only [bne_self_eq_false, Bool.false_eq_true, if_false, hz]
+      constructor
+      · intro h; simp [h]
+      · intro h
+        rcases Nat.eq_zero_or_pos (U w ds) with h0 | h0
+        · exact h0
+        · have : B w * 1 ≤ B w * U w ds := Nat.mul_le_mul_left _ h0
+          omega
+    · have : (d != 1) = true := by simpa using h1
+      rw [if_pos this]
+      simp only [Bool.false_eq_true, false_iff]
+      intro h
+      rcases Nat.eq_zero_or_pos (U w ds) with h0 | h0
+      · rw [h0] at h; omega
+      · have : B w * 1 ≤ B w * U w ds := Nat.mul_le_mul_left _ h0
+        omega
+
 end Bnum.Bits
